@@ -40,6 +40,11 @@ type CondStress struct {
 	Broadcasters int `json:"broadcasters"`
 	Waiters      int `json:"waiters"`
 	Gmp          int `json:"gmp,omitempty"`
+	// the liveness form (broadcast_real_test.go): one waiter that has entered Wait, then one Broadcast per
+	// round, while Entrants goroutines keep entering Wait with an ended context; HoldL: Broadcast is called
+	// holding the caller's lock
+	Entrants int  `json:"entrants,omitempty"`
+	HoldL    bool `json:"hold_l,omitempty"`
 }
 
 // ownerLock is the caller's sync.Locker; it records which goroutine holds it.
